@@ -13,6 +13,9 @@ import (
 // goes through the real decoder.
 var zzInfo infoType
 
+// zzPrivateVal is what the decoder yields for the "private" field.
+var zzPrivateVal int64
+
 //vrt:replace github.com/zeebo/bencode.DecodeBytes github.com/cenkalti/rain/v2/internal/metainfo.zzDecodeBytes
 func zzDecodeBytes(b []byte, v interface{}) error {
 	switch p := v.(type) {
@@ -20,7 +23,7 @@ func zzDecodeBytes(b []byte, v interface{}) error {
 		*p = zzInfo
 		return nil
 	case *int64:
-		*p = 0
+		*p = zzPrivateVal
 		return nil
 	case *string:
 		*p = ""
@@ -124,4 +127,87 @@ func ZZNewInfoWellFormed() {
 	total := int64(info.PieceLength) * int64(info.NumPieces)
 	vrt.Assert(info.Length >= 0 && info.Length <= total && total-info.Length < int64(info.PieceLength), "total length inconsistent with piece count")
 	vrt.Assert(info.Padding >= 0 && info.Padding <= info.Length, "padding bytes exceed total length")
+}
+
+// zzStr returns a string of n arbitrary ASCII bytes (stated bound: bytes >= 0x80,
+// i.e. multi-byte and invalid UTF-8, are covered only by concrete witnesses).
+func zzStr(name string, n int) string {
+	s := vrt.String(name, n)
+	for i := 0; i < len(s); i++ {
+		vrt.Assume(s[i] < 0x80)
+	}
+	return s
+}
+
+// ZZSymbolicPathsInfo builds an info dictionary whose name and path components
+// are arbitrary ASCII strings (name <= maxName bytes, <=2 files with <=2
+// components of <= maxComp bytes), runs the real NewInfo on it and returns the result.
+func ZZSymbolicPathsInfo(maxName, maxComp int) (*Info, error) {
+	return ZZSymbolicPathsInfoN(maxName, maxComp, 2, 2)
+}
+
+// ZZSymbolicPathsInfoN additionally bounds the number of files and of path
+// components per file; maxName < 0 fixes the torrent name to "t".
+func ZZSymbolicPathsInfoN(maxName, maxComp, maxFiles, maxComps int) (*Info, error) {
+	var ib infoType
+	ib.PieceLength = 16384
+	ib.Pieces = make([]byte, 20)
+	if maxName < 0 {
+		ib.Name = "t"
+	} else {
+		ib.Name = zzStr("torrent_name", vrt.Choice("name_len", maxName+1))
+	}
+	nf := vrt.Choice("num_files", maxFiles+1)
+	switch nf {
+	case 0:
+		ib.Length = 16384
+	case 1:
+		ib.Files = []file{{Length: 16384}}
+	case 2:
+		ib.Files = []file{{Length: 8192}, {Length: 8192}}
+	}
+	for i := range ib.Files {
+		nc := vrt.Choice("num_components", maxComps) + 1
+		for c := 0; c < nc; c++ {
+			ib.Files[i].Path = append(ib.Files[i].Path, zzStr("path_component", vrt.Choice("component_len", maxComp+1)))
+		}
+	}
+	zzInfo = ib
+	var b []byte
+	if !vrt.Symbolic() {
+		b = zzEncode(ib)
+	}
+	return NewInfo(b, true, true)
+}
+
+// ZZConcreteInfo builds, through the real NewInfo, an Info with the given piece
+// length, number of pieces and file lengths (single file when one length is
+// given); used as the metadata of torrent-level fixtures.
+func ZZConcreteInfo(pieceLength uint32, numPieces int, fileLengths []int64, private bool) *Info {
+	var ib infoType
+	ib.PieceLength = pieceLength
+	ib.Pieces = vrt.Bytes("piece_hashes", 20*numPieces)
+	ib.Name = "t"
+	if len(fileLengths) == 1 {
+		ib.Length = fileLengths[0]
+	} else {
+		for i, l := range fileLengths {
+			ib.Files = append(ib.Files, file{Length: l, Path: []string{zzNames[i]}})
+		}
+	}
+	zzPrivateVal = 0
+	if private {
+		zzPrivateVal = 1
+		ib.Private = []byte("i1e")
+	}
+	zzInfo = ib
+	var b []byte
+	if !vrt.Symbolic() {
+		b = zzEncode(ib)
+	}
+	info, err := NewInfo(b, true, true)
+	if err != nil {
+		panic("zz: ZZConcreteInfo: " + err.Error())
+	}
+	return info
 }
